@@ -40,4 +40,7 @@ def run(ctx: Ctx) -> None:
     n6 = S.crash_sweep(ctx, v, "C06.R6")
     rep.analysed["crash_points_explored"] = n6
     rep.floor("C06.R6", n6, 15)
+    rep.rule("C06.R7", "the reading methods (has_blob, fetch_blob, fetch_paths) modify no entry of the store: a kill inside a reader cannot tear a committed entry")
+    n7 = S.readers_read_only(ctx, v, "C06.R7")
+    rep.floor("C06.R7", n7, 3)
     rep.floor("C06.effects", v.n_effects, 9)
